@@ -232,6 +232,9 @@ def _layout_rules(model, rep):
     class Idx(list):
         pass
     it = Interp(model, call_hook=hook)
+    # loops over the (symbolic) number of vertices per entity only move
+    # values within a column: neutral for the layout tracked here
+    it.symbolic_range = lambda n: []
 
     def len_hook(v):
         return S
@@ -257,8 +260,9 @@ def _layout_rules(model, rep):
     # unsorted variant (hexahedral facets keep their cyclic vertex order):
     # one representative column per entity = its first occurrence
     try:
-        r2 = Interp(model, call_hook=hook).call(fn, [TStub(), idx],
-                                                {"sort": False})
+        it2 = Interp(model, call_hook=hook)
+        it2.symbolic_range = lambda n: []
+        r2 = it2.call(fn, [TStub(), idx], {"sort": False})
     except (Unsupported, Raised) as e:
         raise AnalysisError(f"build_entities(sort=False): {e}")
     ent = r2[0] if isinstance(r2, tuple) and len(r2) == 2 else None
@@ -553,6 +557,92 @@ def _sentinel(model, rep, sentinel):
     if n < 3:
         raise AnalysisError(f"only {n} readers of the neighbour marker "
                             f"found (3 confirmed by hand)")
+
+
+def _padded_facets(model, rep):
+    """RefWedge lists its triangular faces with a repeated vertex
+    ([0, 1, 2, 0]) so that all faces have four entries.  build_entities
+    identifies faces by their *sorted* vertex tuples: the tuple of a padded
+    triangle records which vertex was repeated, and two prisms that start
+    their local numbering at different corners of a common triangle repeat
+    different vertices.  build_entities is interpreted (exactly, skv/nlite)
+    on two stacked prisms for the three rotations and the reflection of the
+    upper one: the common triangle must be one facet."""
+    from .. import nlite
+    from ..nlite import NArr
+    from ..elements import load_refdoms
+    R1 = "C11-R1"
+    mcls = model.cls("skfem.mesh.mesh", "Mesh")
+    fn = mcls.methods["build_entities"]
+    rd = load_refdoms(model)["RefWedge"]
+    facets = [list(f) for f in rd.facets]
+    pad = [k for k, f in enumerate(facets) if len(set(f)) < len(f)]
+    if len(pad) != 2:
+        raise AnalysisError(f"RefWedge: {len(pad)} padded facets, 2 expected")
+    bot = [k for k in pad if set(facets[k]) <= {0, 1, 2}]
+    top = [k for k in pad if set(facets[k]) <= {3, 4, 5}]
+    if len(bot) != 1 or len(top) != 1:
+        raise AnalysisError("RefWedge: bottom / top triangle not recognised")
+    bad, ncase = None, 0
+    # lower prism 0..5; upper prism sits on (3, 4, 5) with new top 6, 7, 8
+    for rot in range(3):
+        for refl in (False, True):
+            base = [3, 4, 5]
+            base = base[rot:] + base[:rot]
+            newt = [6, 7, 8]
+            newt = newt[rot:] + newt[:rot]
+            if refl:
+                base, newt = [base[0], base[2], base[1]], \
+                    [newt[0], newt[2], newt[1]]
+            t = [[0, base[0]], [1, base[1]], [2, base[2]],
+                 [3, newt[0]], [4, newt[1]], [5, newt[2]]]
+            for sort in (True, False):
+                ncase += 1
+                try:
+                    r = Interp(model, call_hook=nlite.hook).call(
+                        fn, [NArr([list(x) for x in t]), facets],
+                        {"sort": sort})
+                except (Unsupported, Raised) as e:
+                    raise AnalysisError(f"build_entities on two prisms: {e}")
+                ents, mp = r[0].data, r[1].data
+                nf = len(ents[0])
+                shared = mp[top[0]][0] == mp[bot[0]][1]
+                if not shared or nf != 9:
+                    bad = bad or (
+                        f"upper prism numbered {[x[1] for x in t]} "
+                        f"(sort={sort}): {nf} facets instead of 9, the "
+                        f"common triangle is facet {mp[top[0]][0]} for the "
+                        f"lower and facet {mp[bot[0]][1]} for the upper "
+                        f"prism (stored as "
+                        f"{[e[mp[top[0]][0]] for e in ents]} and "
+                        f"{[e[mp[bot[0]][1]] for e in ents]})")
+    # the incidence matrix facets x vertices is assembled by summing ones:
+    # a padded facet lists a vertex twice, so its entry becomes 2 unless the
+    # matrix is normalised afterwards (an incidence matrix holds 0 and 1)
+    pf = mcls.methods.get("p2f")
+    if pf is None:
+        raise AnalysisError("Mesh.p2f not found")
+    normalised = any(
+        (isinstance(n, (ast.Assign, ast.AugAssign)) and ".data" in src(
+            n.targets[0] if isinstance(n, ast.Assign) else n.target))
+        or (isinstance(n, ast.Call) and isinstance(n.func, ast.Attribute)
+            and n.func.attr in ("astype", "minimum", "sign")
+            and ("bool" in src(n) or n.func.attr != "astype"))
+        or (isinstance(n, ast.Compare) and "> 0" in src(n))
+        for n in walk_no_nested(pf.node))
+    _v(rep, R1, normalised, "Mesh.p2f:zero-one",
+       "entries of repeated (padding) vertices are normalised to 1",
+       "Mesh.p2f",
+       "p2f sums a one per listed vertex of every facet and returns the "
+       "sums: the triangular facets of a wedge list one vertex twice "
+       f"({[facets[k] for k in pad]} in RefWedge), so p2f has entries 2 on "
+       "every wedge mesh", pf.lineno, pf.path)
+    _v(rep, R1, bad is None, "build_entities:padded-triangles",
+       f"{ncase} numberings of two stacked prisms: the common triangle is "
+       f"one facet whichever vertex its padding repeats",
+       "Mesh.build_entities", f"{bad}: an interior face is split in two, "
+       f"both halves are boundary facets (a vertex in the middle of the "
+       f"domain becomes a boundary node)", fn.lineno, fn.path)
 
 
 def _complements(model, rep):
@@ -884,6 +974,7 @@ def run(model: Model, rep, tier: str) -> None:
            lambda: _cyclic_enumeration(model, rep))
     _sentinel(model, rep, sentinel)
     _complements(model, rep)
+    _padded_facets(model, rep)
     rep.require_min("C11-R1", 7)
     rep.require_min("C11-R2", 30)
     rep.require_min("C11-R3", 4)
@@ -891,6 +982,11 @@ def run(model: Model, rep, tier: str) -> None:
 
 _R = "skfem/refdom.py"
 MUTANTS = [
+    ("padded facets keyed with the repeated vertex in place",
+     (FM, "            sorted_indexing[itr + 1:-1, rep] = sorted_indexing["
+      "itr + 2:, rep]\n", "            pass\n"), "C11-R1"),
+    ("p2f returns the summed ones",
+     (FM, "        p2f.data[:] = 1\n", ""), "C11-R1"),
     ("interior nodes complemented among all stored points",
      ("skfem/mesh/mesh.py", "        return np.setdiff1d(np.unique(self.t), self.boundary_nodes())",
       "        return np.setdiff1d(np.arange(0, self.p.shape[1]),\n                            self.boundary_nodes())"), "C11-R4"),
